@@ -51,6 +51,29 @@ Theorem vycore_map_frame :
 Proof. split; [exact mlook_mset_same|]. split; [exact mlook_mset_other|]. reflexivity. Qed.
 Print Assumptions vycore_map_frame.
 
+(* Bytes: slice yields exactly the window [start, start+len) of its argument when it lies inside, and fails otherwise;
+   concat appends *)
+Theorem vycore_bytes_exact : forall P ce,
+  (forall f a st ln s v s' t, eval P ce (S f) (ESlice a st ln) s = Ok v s' t ->
+     exists x i n s1 s2 t1 t2 t3,
+       eval P ce f a s = Ok (VBytes x) s1 t1 /\ eval P ce f st s1 = Ok (VInt i) s2 t2 /\
+       eval P ce f ln s2 = Ok (VInt n) s' t3 /\ t = t1 ++ t2 ++ t3 /\
+       0 <= i /\ 0 <= n /\ i + n <= Z.of_nat (length x) /\
+       v = VBytes (firstn (Z.to_nat n) (skipn (Z.to_nat i) x)) /\
+       Z.of_nat (length (firstn (Z.to_nat n) (skipn (Z.to_nat i) x))) = n) /\
+  (forall f a st ln s x i n s1 s2 s3 t1 t2 t3,
+     eval P ce f a s = Ok (VBytes x) s1 t1 -> eval P ce f st s1 = Ok (VInt i) s2 t2 ->
+     eval P ce f ln s2 = Ok (VInt n) s3 t3 ->
+     ~ (0 <= i /\ 0 <= n /\ i + n <= Z.of_nat (length x)) ->
+     eval P ce (S f) (ESlice a st ln) s = Fail Revert) /\
+  (forall f a b s v s' t, eval P ce (S f) (EConcat a b) s = Ok v s' t ->
+     exists x y s1 t1 t2, eval P ce f a s = Ok (VBytes x) s1 t1 /\ eval P ce f b s1 = Ok (VBytes y) s' t2 /\
+       t = t1 ++ t2 /\ v = VBytes (x ++ y)).
+Proof.
+  intros P ce. split; [apply eval_slice_exact|]. split; [apply eval_slice_out_of_range | apply eval_concat_exact].
+Qed.
+Print Assumptions vycore_bytes_exact.
+
 (* with the statically computed fuel the interpreter never runs out of fuel *)
 Theorem vycore_terminates : forall P ce idx args sto tra,
   wf_prog P = true ->
